@@ -1,9 +1,122 @@
 import WM.Proto
+import WM.Spec.Columns
 namespace WM.Drv.C08
-open WM.Proto
+open WM.Proto WM.Columns
 
-/-- Protocol handler of family `c08` (requests arrive without the family token). -/
+/-! Protocol handler of family `c08`.
+
+`var ALLOW CUTOFF DOCCOUNT ((d hex)*)`            → `ok FILE STORED (row*)` | `err NAME`
+`fixed FIXEDLEN DEFAULT DOCCOUNT ((d hex)*)`      → `ok FILE (row*)`
+`num CODE DEFAULT DOCCOUNT ((d int)*)`            → `ok FILE (int*)`
+`ref FIXEDLEN DEFAULT DOCCOUNT ((d hex)*)`        → `ok FILE (row*)`
+`bit COMPRESSAT DOCCOUNT ((d 0|1)*)`              → `ok FILE (0|1*)`
+`varlist (hex*)` / `fixlist FIXEDLEN (hex*)`      → `ROW (decoded*)`
+`multi (offset*) (docnum*)`                       → `((reader local)*)`
+`rows DEFAULT DOCCOUNT ((d hex)*)`                → Layer S rows. -/
+
+def parseAdds {α} (f : SExp → Option α) : SExp → Option (List (Nat × α))
+  | .list xs => xs.mapM fun
+    | .list [d, v] => do
+      let d ← d.nat?
+      let v ← f v
+      pure (d, v)
+    | _ => none
+  | _ => none
+
+def hex? (e : SExp) : Option Bytes := e.atom? >>= hexBytes?
+
+def showErr (e : Err) : String := s!"err {e.name}"
+
+def showRows (rs : List (Except Err Bytes)) : String :=
+  showList (fun r => match r with | .ok b => showHex b | .error e => "!" ++ e.name) rs
+
+def doVar (allow : Bool) (cutoff doccount : Nat) (adds : List (Nat × Bytes)) : String :=
+  match varWrite allow cutoff adds doccount with
+  | .error e => showErr e
+  | .ok file => match VarR.open file doccount with
+    | .error e => s!"ok {showHex file} open-err {e.name}"
+    | .ok r =>
+      s!"ok {showHex file} {showBool r.hadStoredOffsets} {showRows ((List.range doccount).map r.get)}"
+
+def doFixed (fixedlen : Nat) (db : Bytes) (doccount : Nat) (adds : List (Nat × Bytes)) : String :=
+  match fixedWrite fixedlen db adds with
+  | .error e => showErr e
+  | .ok file =>
+    s!"ok {showHex file} {showList (fun d => showHex (fixGet fixedlen db file d)) (List.range doccount)}"
+
+def parseNumCode : SExp → Option NumCode
+  | .atom "b" => some .b | .atom "B" => some .B | .atom "h" => some .h | .atom "H" => some .H
+  | .atom "i" => some .i | .atom "I" => some .I | .atom "q" => some .q | .atom "Q" => some .Q
+  | _ => none
+
+def doNum (c : NumCode) (default : Int) (doccount : Nat) (adds : List (Nat × Int)) : String :=
+  match numWrite c default {} adds with
+  | .error e => showErr e
+  | .ok file =>
+    let rows := (List.range doccount).map fun d => match numGet c default file d with
+      | .ok v => toString v
+      | .error e => "!" ++ e.name
+    s!"ok {showHex file} {showList id rows}"
+
+def doRef (fixedlen : Nat) (db : Bytes) (doccount : Nat) (adds : List (Nat × Bytes)) : String :=
+  let file := refWrite fixedlen db adds doccount
+  match refOpen fixedlen file doccount with
+  | .error e => s!"ok {showHex file} open-err {e.name}"
+  | .ok (sz, us) => s!"ok {showHex file} {showRows ((List.range doccount).map (refGet file sz us))}"
+
+def doBit (compressAt doccount : Nat) (adds : List (Nat × Bool)) : String :=
+  let file := bitWrite compressAt adds
+  s!"ok {showHex file} {showList (fun d => showBool (bitGet file d)) (List.range doccount)}"
+
 def handle : List SExp → String
+  | [.atom "var", allow, cutoff, doccount, adds] =>
+    match allow.bool?, cutoff.nat?, doccount.nat?, parseAdds hex? adds with
+    | some a, some c, some n, some xs => doVar a c n xs
+    | _, _, _, _ => "bad-op"
+  | [.atom "fixed", fl, db, doccount, adds] =>
+    match fl.nat?, hex? db, doccount.nat?, parseAdds hex? adds with
+    | some f, some d, some n, some xs => doFixed f d n xs
+    | _, _, _, _ => "bad-op"
+  | [.atom "num", code, default, doccount, adds] =>
+    match parseNumCode code, default.int?, doccount.nat?, parseAdds SExp.int? adds with
+    | some c, some d, some n, some xs => doNum c d n xs
+    | _, _, _, _ => "bad-op"
+  | [.atom "ref", fl, db, doccount, adds] =>
+    match fl.nat?, hex? db, doccount.nat?, parseAdds hex? adds with
+    | some f, some d, some n, some xs => doRef f d n xs
+    | _, _, _, _ => "bad-op"
+  | [.atom "bit", ca, doccount, adds] =>
+    match ca.nat?, doccount.nat?, parseAdds SExp.bool? adds with
+    | some c, some n, some xs => doBit c n xs
+    | _, _, _ => "bad-op"
+  | [.atom "varlist", ls] =>
+    match SExp.listOf? hex? ls with
+    | some xs =>
+      let row := encodeVarList xs
+      s!"{showHex row} {showOpt (showList showHex) (decodeVarList row)}"
+    | none => "bad-op"
+  | [.atom "fixlist", fl, ls] =>
+    match fl.nat?, SExp.listOf? hex? ls with
+    | some f, some xs => match encodeFixList f xs with
+      | .error e => showErr e
+      | .ok row => s!"{showHex row} {showList showHex (decodeFixList f row)}"
+    | _, _ => "bad-op"
+  | [.atom "multi", offs, ds] =>
+    match offs.natList?, ds.natList? with
+    | some os, some ds =>
+      showList (fun d => match multiLocate os d with
+        | some (r, l) => s!"({r} {l})"
+        | none => "none") ds
+    | _, _ => "bad-op"
+  | [.atom "rows", .atom db, doccount, adds] =>
+    -- values are opaque atoms here: Layer S does not look inside them
+    match doccount.nat?, parseAdds SExp.atom? adds with
+    | some n, some xs => showList id (rowsOf db xs n)
+    | _, _ => "bad-op"
+  | [.atom "refrows", .atom db, doccount, adds] =>
+    match doccount.nat?, parseAdds SExp.atom? adds with
+    | some n, some xs => showList id (refRowsOf db xs n)
+    | _, _ => "bad-op"
   | _ => "bad-op"
 
 end WM.Drv.C08
